@@ -7,6 +7,7 @@ renormalisation (n, n_m, L) -> (n/n_m, 1, L/n_m).  Power-of-two factors must
 reproduce every bit (scaling by 2^k commutes with floating-point rounding,
 whatever the order of operations); decimal factors to 1e-9.
 """
+import warnings
 import math
 
 import numpy as np
@@ -73,6 +74,9 @@ def cases(tier, seed):
             # all lengths written as whole numbers (e.g. nanometres) in
             # Python ints / integer arrays instead of floats
             out.append({"id": "intunits:%s" % st, "kind": "intunits",
+                        "st": st, "ms_xsec": False})
+        if st in ("mie", "tm-spheroid", "ms2", "layered"):
+            out.append({"id": "directions-only:%s" % st, "kind": "dirs",
                         "st": st, "ms_xsec": False})
         for nm in NMEDS:
             out.append({"id": "medium:%s:n_m=%r" % (st, nm), "kind": "medium",
@@ -252,9 +256,66 @@ def _run_intunits(case, ck):
     return digest(*fps)
 
 
+def _run_dirs(case, ck):
+    """detector given as a list of directions without distances (they
+    default to infinity): whatever the library returns there -- a value, or
+    NaN because 1/(k r) vanishes -- it returns in every unit of length"""
+    import holopy as hp
+    from holopy.scattering import calc_field, calc_intensity
+    sspec, tspec = H.ST[case["st"]]
+    th = np.array([0.3, 1.0, 2.0, 2.8])
+    ph = np.array([0.1, 2.0, -1.0, 3.0])
+    res = {}
+    for s in (1.0, 1e-3, 1e3, 2.0 ** 10):
+        scat = H.mk_scatterer(sspec, s)
+        det = hp.detector_points(theta=th, phi=ph)
+        kw = dict(medium_index=H.NMED, illum_wavelen=H.WL * s,
+                  illum_polarization=_pol_for(case["st"]),
+                  theory=H.mk_theory(tspec))
+        out = {}
+        for name, fn in (("field", calc_field), ("intensity", calc_intensity)):
+            try:
+                with warnings.catch_warnings():
+                    warnings.simplefilter("ignore")
+                    out[name] = np.asarray(fn(det, scat, **kw).values)
+            except Exception as e:
+                out[name] = ("exc", type(e).__name__)
+            ck.trans += 1
+        res[s] = out
+    for s in list(res)[1:]:
+        for name in res[1.0]:
+            b, g = res[1.0][name], res[s][name]
+            if isinstance(b, tuple) or isinstance(g, tuple):
+                ck.true("same-acceptance:" + name, isinstance(b, tuple) and
+                        isinstance(g, tuple) and b == g,
+                        "directions-only detector, %s: %r in the original "
+                        "unit, %r with lengths x %g" %
+                        (name, b if isinstance(b, tuple) else "ok",
+                         g if isinstance(g, tuple) else "ok", s))
+                continue
+            same_nan = b.shape == g.shape and \
+                bool(np.array_equal(np.isnan(b), np.isnan(g)))
+            fin = ~np.isnan(b) if same_nan else None
+            sc = float(np.max(np.abs(b[fin]))) if same_nan and fin.any() \
+                else 1.0
+            e = float(np.max(np.abs(g[fin] - b[fin])) / (sc or 1.0)) \
+                if same_nan and fin.any() else 0.0
+            ck.metric("directions:" + name, e)
+            ck.true("scale-directions:" + name, same_nan and e <= 1e-9,
+                    "directions-only detector (%s): %s is %r in the "
+                    "original unit and %r with all lengths x %g" %
+                    (case["st"], name, b.ravel()[:2].tolist(),
+                     g.ravel()[:2].tolist(), s))
+    b = res[1.0]["field"]
+    return digest("nan" if isinstance(b, tuple) or np.isnan(b).all()
+                  else fp_values(b))
+
+
 def run_case(case):
     ck = Checker()
     st = case["st"]
+    if case["kind"] == "dirs":
+        return ck.result(fp=_run_dirs(case, ck))
     if case["kind"] == "intunits":
         return ck.result(fp=_run_intunits(case, ck))
     if case["kind"] == "scale":
